@@ -388,4 +388,57 @@ def ownRun (closureOwns : Bool) : List Nat → List OwnEv → Bool
   | owners, .dropOwner o :: rest => ownRun closureOwns (owners.erase o) rest
   | owners, .call :: rest => (closureOwns || !owners.isEmpty) && ownRun closureOwns owners rest
 
+/-! ## process-global state (generated by target `c12globals`) -/
+
+inductive GlobalKind
+  | mutex       -- `Mutex<…>`, possibly inside `LazyLock` / `OnceLock`
+  | rwlock
+  | atomic
+  | immutable   -- no interior mutability: written once before `main` / on first use
+  | other       -- `Cell`, `RefCell`, `UnsafeCell`, `Rc`, unknown wrappers
+  deriving DecidableEq, Repr
+
+inductive GlobalUse
+  | lock | read | write   -- `NAME.lock()`, `NAME.read()`, `NAME.write()`
+  | other                 -- anything else done with the name
+  deriving DecidableEq, Repr
+
+structure StaticFact where
+  kind : GlobalKind
+  isMut : Bool            -- `static mut`
+  uses : List GlobalUse   -- every occurrence of the name (lock-shaped statics only)
+  deriving Repr
+
+structure GlobalFacts where
+  threadLocals : Nat
+  statics : List StaticFact
+  deriving Repr
+
+/-- the mode in which a use of a lock-shaped global acquires it -/
+def GlobalUse.mode : GlobalUse → Option LockMode
+  | .lock => some .mutexLock
+  | .read => some .rwRead
+  | .write => some .rwWrite
+  | .other => none
+
+def GlobalKind.lockKind : GlobalKind → LockKind
+  | .mutex => .mutex
+  | .rwlock => .rwlock
+  | _ => .none
+
+/-- the decision: no `static mut`, no unlocked interior mutability in a global,
+and every occurrence of a lock-shaped global is an acquisition valid for its
+lock (so the data inside is reachable through a guard only); for a `Mutex` every
+such acquisition is exclusive -/
+def StaticFact.disciplined (s : StaticFact) : Bool :=
+  !s.isMut && match s.kind with
+    | .atomic | .immutable => true
+    | .other => false
+    | .mutex | .rwlock =>
+      !s.uses.isEmpty && s.uses.all (fun u => match u.mode with
+        | some m => modeValid s.kind.lockKind m
+        | none => false)
+
+def globalsDisciplined (f : GlobalFacts) : Bool := f.statics.all StaticFact.disciplined
+
 end RotoV.Conc.Share
